@@ -188,7 +188,23 @@ func (sc *RevScenario) evalRevCall(rc *ruleCtx, obs *RevObs, co *CallObs) {
 				}
 			}
 		}
+		// a further request to one of the certificate's own responders (a
+		// retry) is still OCSP; anything else is not
+		own := map[string]bool{}
+		for _, cp := range w.Certs {
+			for _, s := range cp.OCSP {
+				own[hostOf(s.URL)] = true
+			}
+		}
 		for _, u := range obs.Net.Unplanned {
+			if own[hostOf(u.URL)] {
+				rc.st.Probes["ocsp_request_beyond_planned_attempts"]++
+				continue
+			}
+			if h := hostOf(u.URL); strings.HasSuffix(h, ".sim") && !strings.HasSuffix(h, fmt.Sprintf(".w%d.sim", w.ID)) && h != "redirect.sim" {
+				// a host of another world of this run: that world's business
+				continue
+			}
 			rc.fail("C11.R7", "unplanned_contact", "ocsp.CheckStatus contacted unplanned URL "+u.URL)
 		}
 	}
@@ -495,6 +511,28 @@ func (sc *RevScenario) evalCert(rc *ruleCtx, obs *RevObs, co *CallObs, v *CertVi
 		}
 	}
 	if rc.on("C11") {
+		// R1 "they are asked": a responder the library itself hung up on - its
+		// request ended because the request's context was done although
+		// neither the caller had cancelled nor the client's timeout had run
+		// out - was not asked
+		tc, cancelled := sc.cancelInstant(obs, co)
+		for _, src := range v.CP.OCSP {
+			if co.Rep >= len(src.X) || src.X[co.Rep] == nil {
+				continue
+			}
+			x := src.X[co.Rep]
+			if !x.Rec.Begun || x.Rec.Outcome != "ctx_done" {
+				continue
+			}
+			rc.anteTrue("C11.R1")
+			explained := cancelled && !x.Rec.TReturn.Before(tc)
+			if sc.OCSPTimeout > 0 && x.Rec.TReturn.Sub(x.Rec.TBegin) >= sc.OCSPTimeout {
+				explained = true
+			}
+			if !explained {
+				rc.fail("C11.R1", "responder_hung_up_on", fmt.Sprintf("%s: the request to responder %s was abandoned after %s although the caller had not cancelled and the client's timeout (%s, 0 = none) had not run out", tag, src.URL, x.Rec.TReturn.Sub(x.Rec.TBegin), sc.OCSPTimeout))
+			}
+		}
 		// R1 ordering
 		if len(v.OCSP) > 0 && len(crl) > 0 {
 			var firstCRL *SrcView
@@ -605,6 +643,23 @@ func (sc *RevScenario) checkShape(rc *ruleCtx, v *CertView, tag string) {
 			}
 			if es[0].Result == result.ResultNonRevokable {
 				bad("ocsp_entry_nonrevokable_for_certificate_with_responders")
+			}
+			if nResp > 1 && es[0].Result == result.ResultUnknown {
+				// a single Unknown entry for several responders must be the
+				// DECISIVE kind: an authentic answer with status Unknown. A
+				// responder that merely failed does not end the consultation.
+				decisiveSeen, known := false, false
+				for _, src := range v.OCSP {
+					if src.URL == es[0].Server {
+						known = true
+						if src.Vacuous || src.Alts == nil || hasAlt(src, func(a string) bool { return a == ClUnknownSt || a == ClEither || a == ClDontCare }) {
+							decisiveSeen = true
+						}
+					}
+				}
+				if known && !decisiveSeen {
+					bad(fmt.Sprintf("ocsp_single_undecisive_unknown_entry_for_%d_responders", nResp))
+				}
 			}
 		case len(es) == nResp:
 			for _, e := range es {
